@@ -103,7 +103,9 @@ API_CONFIGS = {"C06": ["Calls", "Mixed", "Events"], "C02": ["Calls", "Mixed"], "
 API_TIERS = {"quick": dict(cap=2500, shards=4, suffix=""), "thorough": dict(cap=40000, shards=12, suffix="_thorough")}
 # the two API-level specifications: (module that enumerates, configuration prefix, driver, trace specification)
 API_FAMILY = {"bus": ("MC_BusApi.tla", "R_BusApi_", "api-replay", "Trace_BusApi"),
-              "chan": ("MC_ChanApi.tla", "R_ChanApi", "chan-replay", "Trace_ChanApi")}
+              "chan": ("MC_ChanApi.tla", "R_ChanApi", "chan-replay", "Trace_ChanApi"),
+              "lst": ("MC_ListenerApi.tla", "R_ListenerApi", "listener-replay", "Trace_ListenerApi")}
+FAMILY_CONFIGS = {"chan": [""], "lst": ["", "_two", "_svc"]}
 
 
 def api_model(prop, tier, seed, verdict, cov, family="bus"):
@@ -115,7 +117,7 @@ def api_model(prop, tier, seed, verdict, cov, family="bus"):
     module, prefix, driver, tspec = API_FAMILY[family]
     wd = vlib.workdir(f"{prop}-{tier}-api-{family}")
     chosen, parts = [], []
-    for nm in (API_CONFIGS[prop] if family == "bus" else [""]):
+    for nm in (API_CONFIGS[prop] if family == "bus" else FAMILY_CONFIGS[family]):
         cfgfile = f"{prefix}{nm}{at['suffix']}.cfg"
         if not os.path.exists(os.path.join(vlib.SPEC, cfgfile)):
             cfgfile = f"{prefix}{nm}.cfg"
@@ -147,7 +149,8 @@ def api_model(prop, tier, seed, verdict, cov, family="bus"):
             a, b = vlib.run_of_record(recs, gi)
             run_no = recs[a].get("run")
             # C06 states the consistency of results itself ("a call returns the value computed for that very call")
-            mine = prop in p.split("+") or (prop == "C06" and p in ("C02", "C06"))
+            # C06 also owns what the client library alone decides: which of a client's listeners an untagged event reaches
+            mine = prop in p.split("+") or (prop == "C06" and p in ("C02", "C06")) or (prop == "C06" and family == "lst")
             if mine:
                 verdict.violation(why[:400], dict(kind=driver, behaviour=json.loads(chosen[run_no]) if run_no is not None and run_no < len(chosen) else None,
                                                   record_index=gi, trace=recs[a:b], violated_at=recs[gi - 1]))
@@ -161,7 +164,7 @@ def api_model(prop, tier, seed, verdict, cov, family="bus"):
         os.remove(p)
     cov["drift"] = cov.get("drift", 0) + drifts
     cov["records"] = cov.get("records", 0) + len(recs)
-    cov["api_replay" if family == "bus" else "chan_api_replay"] = dict(configs=parts, behaviours_replayed=len(chosen), steps=summ.get("steps", 0),
+    cov[{"bus": "api_replay", "chan": "chan_api_replay", "lst": "listener_api_replay"}[family]] = dict(configs=parts, behaviours_replayed=len(chosen), steps=summ.get("steps", 0),
                                                                         flagged=summ.get("flagged", [])[:3], drifts=drifts)
 
 
@@ -190,6 +193,7 @@ def run(prop, tier, seed):
         discovery_model(prop, tier, seed, verdict, cov)
     if prop == "C06":
         api_model(prop, tier, seed, verdict, cov)
+        api_model(prop, tier, seed, verdict, cov, family="lst")
     if prop == "C15":
         # the connection task's end-of-life protocol (spec/ConnTask.tla), the code as it is: everything but the
         # delivery of a queued Shutdown must hold; that clause is the known finding, re-observed in the model
@@ -309,6 +313,8 @@ def run(prop, tier, seed):
         coverage["api_level_replay"] = cov["api_replay"]
     if cov.get("chan_api_replay"):
         coverage["channel_api_replay"] = cov["chan_api_replay"]
+    if cov.get("listener_api_replay"):
+        coverage["listener_api_replay"] = cov["listener_api_replay"]
     if prop == "C06" and cov.get("stop_scenarios"):
         coverage["stop_scenarios"] = cov["stop_scenarios"]
     if prop == "C15":
@@ -361,13 +367,13 @@ def replay(prop, path, seed):
                 a, b = vlib.run_of_record(recs, idx)
                 verdict.violation(why, dict(kind="stop-scenarios", driver_args=data["driver_args"], record_index=idx, trace=recs[a:b][:200]))
         log(f"re-run of the scenarios on the current tree: {verdict.violations} violation(s) of {prop}")
-    elif data.get("kind") in ("api-replay", "chan-replay"):
+    elif data.get("kind") in ("api-replay", "chan-replay", "listener-replay"):
         bfile = os.path.join(wd, "behaviour.ndjson")
         with open(bfile, "w") as f:
             f.write(json.dumps(data["behaviour"]) + "\n")
         out = os.path.join(wd, "rerun.ndjson")
         vlib.run_driver(data["kind"], ["--in", bfile, "--out", out, "--seed", seed])
-        tspec = "Trace_BusApi" if data["kind"] == "api-replay" else "Trace_ChanApi"
+        tspec = {"api-replay": "Trace_BusApi", "chan-replay": "Trace_ChanApi", "listener-replay": "Trace_ListenerApi"}[data["kind"]]
         r = vlib.tlc_trace(tspec + ".tla", tspec + ".cfg", out)
         recs = vlib.read_ndjson(out)
         for (idx, p, why) in r["violations"]:
